@@ -2,7 +2,16 @@
 import itertools
 from fractions import Fraction as F
 import cluster_common as cc
-from cluster_common import CASE_HEADER, MODEL_TARGETS
+from cluster_common import CASE_HEADER, MODEL_TARGETS, GEN_FILES
+import os, sys
+from core import VERIF
+sys.path.insert(0, os.path.join(VERIF, "translator"))
+import tr_kcguard
+
+
+def translate(repo):
+    return tr_kcguard.translate(repo)
+
 
 PID = "C02"
 PROPS_FILE = "Props/C02.v"
@@ -94,6 +103,8 @@ def _replay(D, n, nclu, cutoff, init):
 
 def oracle(c, out):
     if "err" in out:
+        if c["kind"] == "kcenters" and c["nclu"] is None and c["cutoff"] is None and out["err"] == "ImproperlyConfigured":
+            return []      # no stopping criterion at all: rejection is the documented behaviour
         return [("impl-error", "%s: %s" % (out["err"], out.get("msg")))]
     fails = []
     D = [[F(v) for v in row] for row in out["D"]]
